@@ -529,7 +529,12 @@ func (s *Sim) refetchClass(r *Req) int8 {
 	// not been idle since: it may still sit in the resource's work queue behind
 	// whatever made the gateway send r
 	fuzzy, fuzzyRaw := false, false
+	// refEnd: the latest moment at which the entry could be re-fetched
+	var refEnd uint64
 	for _, e := range evs {
+		if e.q != r && (loaded || len(initial) > 0) {
+			refEnd = e.seq
+		}
 		if e.del {
 			if !s.processed(r.Name, e.cut) {
 				fuzzy = true
@@ -594,6 +599,20 @@ func (s *Sim) refetchClass(r *Req) int8 {
 		return 1
 	}
 	if !refetch[r] {
+		if s.Cfg.Gw.ResetThrottle > 0 && r.Query == vq {
+			// a re-fetch waits in the reset throttle: it may have been decided while
+			// the entry was there
+			for _, rec := range s.W.Resets {
+				if !rec.Dlv || rec.DlvSeq >= refEnd {
+					continue
+				}
+				for _, p := range rec.Resources {
+					if matchPattern(p, r.Name) {
+						return 1
+					}
+				}
+			}
+		}
 		return 0
 	}
 	if !isQuery {
